@@ -1240,16 +1240,13 @@ func mat8(c *Ctx) {
 					kind = "separate"
 					cl.sep++
 					okG := false
-					for _, c2 := range ir.Calls(fn) {
-						cv, ok := c2.(*ssa.Call)
-						if !ok {
-							continue
+					for _, t := range dashPrefixTests(fn, r.val) {
+						if ir.HoldsAt(t, false, r.mu.Block()) {
+							okG = true
 						}
-						if f := ir.Static(cv); f != nil && ir.IsStdFunc(f, "strings", "HasPrefix") {
-							if s, isS := ir.ConstString(cv.Call.Args[1]); isS && s == "-" && cv.Call.Args[0] == r.val && ir.HoldsAt(cv, false, r.mu.Block()) {
-								okG = true
-							}
-						}
+					}
+					if !okG {
+						okG = notDashPrefixedAt(fn, r.val, r.mu.Block())
 					}
 					if !okG {
 						problems = append(problems, "a separate value is recorded without being tested not to start with '-'")
@@ -1570,4 +1567,135 @@ func extractPhi(v ssa.Value) (calls []*ssa.Call, idx int) {
 		calls = append(calls, call)
 	}
 	return calls, idx
+}
+
+// dashPrefixTests returns the boolean values of fn that are true exactly when string v starts with '-':
+// strings.HasPrefix(v, "-"), or the lowered `len(v) > 0 && v[0] == '-'` / `v != "" && v[0] == '-'`.
+func dashPrefixTests(fn *ssa.Function, v ssa.Value) []ssa.Value {
+	var out []ssa.Value
+	isFirstDash := func(x ssa.Value) bool {
+		bo, ok := x.(*ssa.BinOp)
+		if !ok || bo.Op != token.EQL {
+			return false
+		}
+		if k, isK := ir.ConstInt(bo.Y); !isK || k != '-' {
+			return false
+		}
+		ix, isIx := bo.X.(*ssa.Index)
+		if !isIx || ix.X != v {
+			return false
+		}
+		z, isZ := ir.ConstInt(ix.Index)
+		return isZ && z == 0
+	}
+	ir.Instrs(fn, func(in ssa.Instruction) {
+		switch x := in.(type) {
+		case *ssa.Call:
+			if f := ir.Static(x); f != nil && ir.IsStdFunc(f, "strings", "HasPrefix") {
+				if s, isS := ir.ConstString(x.Call.Args[1]); isS && s == "-" && x.Call.Args[0] == v {
+					out = append(out, x)
+				}
+			}
+		case *ssa.Phi:
+			// phi [false (v empty), v[0] == '-']
+			if len(x.Edges) != 2 {
+				return
+			}
+			nFalse, nDash := 0, 0
+			for i, e := range x.Edges {
+				if b, isC := ir.ConstBool(e); isC && !b {
+					// that edge must be the "v is empty" outcome of a length / emptiness test of v
+					p := x.Block().Preds[i]
+					if len(p.Instrs) > 0 {
+						if iff, isIf := p.Instrs[len(p.Instrs)-1].(*ssa.If); isIf {
+							if cmp, isBo := iff.Cond.(*ssa.BinOp); isBo {
+								emptyOnFalse := false
+								if lc, isCall := cmp.X.(*ssa.Call); isCall {
+									if bi, isB := lc.Call.Value.(*ssa.Builtin); isB && bi.Name() == "len" && lc.Call.Args[0] == v {
+										if k, isK := ir.ConstInt(cmp.Y); isK {
+											if t, okT := lenCmp(cmp.Op, 0, k); okT && !t {
+												if t1, _ := lenCmp(cmp.Op, 1, k); t1 {
+													emptyOnFalse = true
+												}
+											}
+										}
+									}
+								}
+								if s, isS := ir.ConstString(cmp.Y); isS && s == "" && cmp.X == v && cmp.Op == token.NEQ {
+									emptyOnFalse = true
+								}
+								if emptyOnFalse && len(p.Succs) == 2 && p.Succs[1] == x.Block() {
+									nFalse++
+								}
+							}
+						}
+					}
+				} else if isFirstDash(e) {
+					nDash++
+				}
+			}
+			if nFalse == 1 && nDash == 1 {
+				out = append(out, x)
+			}
+		}
+	})
+	return out
+}
+
+// notDashPrefixedAt: every way to block b crosses an edge on which string v is known not to start with
+// '-': the false edge of HasPrefix(v, "-") or of v[0] == '-', or the "v is empty" edge of a length test.
+func notDashPrefixedAt(fn *ssa.Function, v ssa.Value, b *ssa.BasicBlock) bool {
+	cut := map[ir.Edge]bool{}
+	add := func(cond ssa.Value, want bool) {
+		for _, e := range ir.EdgesWhere(fn, cond, want) {
+			cut[ir.Edge{From: e.From, To: e.To}] = true
+		}
+	}
+	ir.Instrs(fn, func(in ssa.Instruction) {
+		switch x := in.(type) {
+		case *ssa.Call:
+			if f := ir.Static(x); f != nil && ir.IsStdFunc(f, "strings", "HasPrefix") {
+				if s, isS := ir.ConstString(x.Call.Args[1]); isS && s == "-" && x.Call.Args[0] == v {
+					add(x, false)
+				}
+			}
+		case *ssa.BinOp:
+			if ix, isIx := x.X.(*ssa.Index); isIx && ix.X == v {
+				if z, isZ := ir.ConstInt(ix.Index); isZ && z == 0 {
+					if k, isK := ir.ConstInt(x.Y); isK && k == '-' {
+						if x.Op == token.EQL {
+							add(x, false)
+						} else if x.Op == token.NEQ {
+							add(x, true)
+						}
+					}
+				}
+			}
+			if s, isS := ir.ConstString(x.Y); isS && s == "" && x.X == v {
+				if x.Op == token.EQL {
+					add(x, true)
+				} else if x.Op == token.NEQ {
+					add(x, false)
+				}
+			}
+			if lc, isCall := x.X.(*ssa.Call); isCall {
+				if bi, isB := lc.Call.Value.(*ssa.Builtin); isB && bi.Name() == "len" && lc.Call.Args[0] == v {
+					if k, isK := ir.ConstInt(x.Y); isK {
+						for _, want := range []bool{true, false} {
+							// the outcome is possible for length 0 only
+							z, okZ := lenCmp(x.Op, 0, k)
+							one, _ := lenCmp(x.Op, 1, k)
+							if okZ && z == want && one != want {
+								add(x, want)
+							}
+						}
+					}
+				}
+			}
+		}
+	})
+	if len(cut) == 0 || b == fn.Blocks[0] {
+		return false
+	}
+	return !ir.Reach(fn.Blocks[0], nil, cut)[b]
 }
